@@ -23,9 +23,9 @@ import (
 func init() {
 	core.Register(&core.Prop{
 		ID: "C11", Level: "exploration",
-		Rule: "cases are serializer-built messages of 3-60 fields over tags 1-99999 with SOH-free random values (optionally XMLData with embedded SOH), parsed with no dictionary / FIX44 / FIXT11+FIX50SP2 / a synthetic transport dictionary with extra header and trailer tags, each followed by its single-field corruptions (BodyLength +-k, digit swaps, permuted/duplicated/missing leading fields); non-trivial = message with a header field beyond 8/9/35, a body and a trailer field; distinct by (mode, tag-class layout)",
+		Rule:        "cases are serializer-built messages of 3-60 fields over tags 1-99999 with SOH-free random values (optionally XMLData with embedded SOH), parsed with no dictionary / FIX44 / FIXT11+FIX50SP2 / a synthetic transport dictionary with extra header and trailer tags, each followed by its single-field corruptions (BodyLength +-k, digit swaps, permuted/duplicated/missing leading fields); non-trivial = message with a header field beyond 8/9/35, a body and a trailer field; distinct by (mode, tag-class layout)",
 		Assumptions: []string{"duplicate tags outside groups are not generated", "CheckSum is not verified by ParseMessage and the statement does not ask for it", "with an application dictionary, body tags that the dictionary declares as group counters for the message type are not used as plain fields"},
-		FloorQuick: 200, FloorThorough: 2000,
+		FloorQuick:  200, FloorThorough: 2000,
 		Parts: []core.Part{{Name: "parse", Run: run, Replay: replay}},
 	})
 }
